@@ -5,6 +5,7 @@
 // over all pairs (E,T) of duplicate-free JSON values up to a token budget, and
 // repeated application (E,T1,T2).
 #include <memory>
+#include <set>
 
 #include "common/families.hpp"
 #include "common/refjson.hpp"
@@ -160,11 +161,54 @@ int main(int argc, char** argv) {
         VTs.push_back(r.v);
       }
   }
+  // Shape-bounded set (the token budget above cannot reach depth 2 x width 2): every duplicate-free value
+  // with <= 2 children per container and depth <= 2 over leaves {1,"s"(,null)} and keys a,b.
+  std::vector<std::string> WD;
+  std::vector<ref::Value> VD;
+  {
+    // "leaves" include the empty containers, so that an empty object/array can sit at depth 2
+    std::vector<std::string> lv = {"1", "{}"};
+    if (!quick && !HAVE_ASAN) {
+      lv.push_back("\"s\"");
+      lv.push_back("[]");
+    }
+    auto containers = [](const std::vector<std::string>& S) {
+      std::vector<std::string> out = {"[]", "{}"};
+      for (auto& x : S) out.push_back("[" + x + "]");
+      for (auto& x : S)
+        for (auto& y : S) out.push_back("[" + x + "," + y + "]");
+      for (const char* k : {"\"a\"", "\"b\""})
+        for (auto& x : S) out.push_back(std::string("{") + k + ":" + x + "}");
+      for (int o = 0; o < 2; o++)
+        for (auto& x : S)
+          for (auto& y : S) out.push_back(std::string("{") + (o ? "\"b\"" : "\"a\"") + ":" + x + "," + (o ? "\"a\"" : "\"b\"") + ":" + y + "}");
+      return out;
+    };
+    auto dedupe = [](std::vector<std::string>& v) {
+      std::vector<std::string> o;
+      std::set<std::string> seen;
+      for (auto& x : v)
+        if (seen.insert(x).second) o.push_back(x);
+      v = o;
+    };
+    std::vector<std::string> v1 = lv;
+    for (auto& c : containers(lv)) v1.push_back(c);
+    dedupe(v1);
+    WD = lv;
+    for (auto& c : containers(v1)) WD.push_back(c);
+    dedupe(WD);
+    for (auto& t : WD) VD.push_back(ref::parse(t).v);
+  }
   // subsets for repeated application
   const size_t m3 = std::min<size_t>(WE.size(), quick ? 90 : 200);
   const size_t m3t = std::min<size_t>(WT.size(), quick ? 90 : 200);
 
-  vr::Family f1, f2, f3;
+  vr::Family f1, f2, f3, f4;
+  f4.name = "SD_pairs_shape_depth2";
+  f4.count = (uint64_t)WD.size() * WD.size();
+  f4.group = "SD";
+  f4.chunk = 512;
+  f4.rule = "all pairs (E,T) over the " + std::to_string(WD.size()) + " duplicate-free values with <= 2 children per container and nesting depth <= 2 (leaves 1 and the empty object; thorough adds \"s\" and the empty array; keys a,b in both orders): reaches two-member objects nested in two-member objects on both sides";
   f1.name = "SP_pairs";
   f1.count = (uint64_t)WE.size() * WT.size();
   f1.group = "SP";
@@ -191,6 +235,11 @@ int main(int argc, char** argv) {
       size_t ti = idx % WT.size();
       ts = {&WT[ti]};
       Ts = {&VT[ti]};
+    } else if (f.name[1] == 'D') {
+      ei = idx / WD.size();
+      size_t ti = idx % WD.size();
+      ts = {&WD[ti]};
+      Ts = {&VD[ti]};
     } else if (f.name[1] == 'S') {
       ei = idx / WTs.size();
       size_t ti = idx % WTs.size();
@@ -202,7 +251,9 @@ int main(int argc, char** argv) {
       ts = {&WT[t1], &WT[t2]};
       Ts = {&VT[t1], &VT[t2]};
     }
-    const ref::Value& E = VE[ei];
+    const bool shape = f.name[1] == 'D';
+    const ref::Value& E = shape ? VD[ei] : VE[ei];
+    const std::string& Etext = shape ? WD[ei] : WE[ei];
     ctx.eval();
     bool nt = E.k != Ts[0]->k;
     if (nonempty_obj(E) && nonempty_obj(*Ts[0]))
@@ -210,17 +261,17 @@ int main(int argc, char** argv) {
         if (E.find(m.first)) nt = true;
     if (nt) ctx.nontriv();
     if (ctx.want_sample) {
-      std::string d = "E=" + WE[ei];
+      std::string d = "E=" + Etext;
       for (auto t : ts) d += " T=" + *t;
       ctx.sample(d);
     }
-    apply<PoolDoc>(WE[ei], ts, E, Ts, "pool", ctx);
+    apply<PoolDoc>(Etext, ts, E, Ts, "pool", ctx);
 #if HAVE_ASAN
-    apply<SimpleDoc>(WE[ei], ts, E, Ts, "simple", ctx);
+    apply<SimpleDoc>(Etext, ts, E, Ts, "simple", ctx);
 #endif
   };
 
-  std::vector<vr::Family> fams = {f1, f2, f3};
+  std::vector<vr::Family> fams = {f1, f2, f3, f4};
   if (args.replay) return R.replay_one(fams, check);
   const std::string only = args.get("only");
   for (auto& f : fams)
